@@ -3,6 +3,7 @@ import Jose.Jwe
 import Jose.Exc
 import Jose.Props.C01
 import Jose.Props.C14
+import Jose.Crypto.Modes
 /-
   C10 — weak or invalid key material is refused.
 
@@ -230,5 +231,44 @@ theorem rsa_members_must_decode (jwk : Json) (key : RsaKey) (h : rsaKeyOf jwk = 
 /-- non-vacuity of the refusal: `d` present but not base64url -/
 example : rsaKeyOf (.obj [("kty", .str "RSA"), ("n", .str "AQAB"), ("e", .str "AQAB"), ("d", .str "!!")]) = none := by
   decide +kernel
+
+/-! ### RFC 3394 key data (after fix `44398cd`)
+
+  The executable AES key wrap the driver instantiates `Prims.kwWrap` / `kwUnwrap` with (and which the correspondence
+  compares with lib/openssl/aeskw.c on every run) has exactly the RFC 3394 domain: at least two 64-bit blocks of key
+  data, a whole number of them; in particular nothing is wrapped from, or unwrapped to, an empty key. -/
+
+theorem kw_wrap_domain (kek pt ct : ByteArray) (h : Jose.Crypto.aesKwWrap kek pt = some ct) :
+    16 ≤ pt.size ∧ pt.size % 8 = 0 := by
+  unfold Jose.Crypto.aesKwWrap at h
+  split at h
+  · simp at h
+  · split at h
+    · simp at h
+    · rename_i hg
+      simp only [bne_iff_ne, ne_eq, Bool.or_eq_true, decide_eq_true_eq, not_or, Decidable.not_not, Nat.not_lt] at hg
+      omega
+
+theorem kw_unwrap_domain (kek ct pt : ByteArray) (h : Jose.Crypto.aesKwUnwrap kek ct = some pt) :
+    24 ≤ ct.size ∧ ct.size % 8 = 0 := by
+  unfold Jose.Crypto.aesKwUnwrap at h
+  split at h
+  · simp at h
+  · split at h
+    · simp at h
+    · rename_i hg
+      simp only [bne_iff_ne, ne_eq, Bool.or_eq_true, decide_eq_true_eq, not_or, Decidable.not_not, Nat.not_lt] at hg
+      omega
+
+/-- in particular: the empty key is neither wrapped nor the result of unwrapping an empty `encrypted_key` -/
+theorem kw_refuses_empty (kek : ByteArray) :
+    Jose.Crypto.aesKwWrap kek ByteArray.empty = none ∧ Jose.Crypto.aesKwUnwrap kek ByteArray.empty = none := by
+  constructor
+  · cases h : Jose.Crypto.aesKwWrap kek ByteArray.empty with
+    | none => rfl
+    | some ct => have := (kw_wrap_domain _ _ _ h).1; simp at this
+  · cases h : Jose.Crypto.aesKwUnwrap kek ByteArray.empty with
+    | none => rfl
+    | some pt => have := (kw_unwrap_domain _ _ _ h).1; simp at this
 
 end Jose.Props.C10
